@@ -103,8 +103,9 @@ Print Assumptions C15_commute.
 
 (* "=v" and "<>v" are complementary on a cell / partition a range, for a text
    operand without wildcards, and for a numeric operand over cells that are
-   not numeric text (and not floats: not covered).  The full statement is
-   refuted: Refuted/C15_partition.v (wildcard operand; numeric text cell). *)
+   blank, logical, integer, float or text that is_number rejects (part_ok).
+   The full statement is refuted: Refuted/C15_partition.v (wildcard operand;
+   numeric text cell). *)
 Theorem C15_partition_partial : forall v x b, plain_operand v ->
   (is_num (VStr v) = Ok false /\ has_wild v = false /\ (exists w, lower_str v = Ok w))
   \/ (is_num (VStr v) = Ok true /\ (exists n, to_num (VStr v) = Ok n) /\ part_ok x) ->
